@@ -32,6 +32,13 @@ WithAcceptor(s) ==
           ELSE {})
 PolicyScenarios == UNION {WithAcceptor(s) : s \in RainDialers \cup OtherDialers}
 
+\* session-level matrix (harness/c12 -mode ses): a real torrent.Session with every consistent setting of the outgoing
+\* switches (and both values of ForceIncomingEncryption, `sfi`, which must not matter for dialing) against a raw listener
+\* of every scripted kind; keymode "unknown" = a listener that refuses every MSE handshake and every plaintext one
+SesScenarios == {s \in PolicyScenarios : /\ s.dk = "rain" /\ s.ck \in {"plainonly", "mse", "any"}
+                                          /\ ~s.loose /\ ~s.trunc /\ s.selpol = "preferRC4"
+                                          /\ (s.keymode = "unknown" => s.ck = "mse")}
+
 Scenarios == CASE MODE = "pads" -> PadScenarios
                [] MODE = "neg" -> NegScenarios
                [] MODE = "policy" -> PolicyScenarios
@@ -57,6 +64,7 @@ FrChoices(av) ==
 \* the policy matrix is also printed (one JSON object per scenario): harness/c12 replays it against btconn
 MCInit == \E s \in Scenarios : /\ InitWith(s)
                                 /\ (s \in PolicyScenarios => PrintT("@@" \o ToJson(s)))
+                                /\ (s \in SesScenarios => \A fi \in BOOLEAN : PrintT("@@" \o ToJson([fam |-> "ses", sc |-> s, sfi |-> fi])))
 
 MCNext ==
     \/ DPlainStart \/ DPlainRead \/ A4 \/ A5 \/ A6 \/ DBtRead
